@@ -572,6 +572,10 @@ class Name:
         of reducing the message size).
         """
         name = self.name
+        if len(name) - name.endswith(b".") > 253:
+            # 255 octets on the wire, less the first length octet and the
+            # terminating root label.
+            raise ValueError(f"DNS name longer than 255 octets: {name!r}")
         while name:
             if compDict is not None:
                 if name in compDict:
